@@ -62,8 +62,10 @@ def sites : List (Nat × Nat × Nat) := [
   (20, 61, 1),  -- messages/streamack.rs  fn write: .write_u8
   (21, 206, 1),  -- messages/tx.rs  fn write: .write_u32
   (21, 215, 1),  -- messages/tx.rs  fn write: .write_u32
+  (22, 45, 0),  -- messages/tx_in.rs  fn write: .write_all
   (22, 46, 1),  -- messages/tx_in.rs  fn write: .write_u32
   (23, 35, 1),  -- messages/tx_out.rs  fn write: .write_i64
+  (23, 37, 0),  -- messages/tx_out.rs  fn write: .write_all
   (24, 94, 1),  -- messages/version.rs  fn write: .write_u32
   (24, 95, 1),  -- messages/version.rs  fn write: .write_u64
   (24, 96, 1),  -- messages/version.rs  fn write: .write_i64
@@ -77,16 +79,15 @@ def sites : List (Nat × Nat × Nat) := [
   (25, 123, 1),  -- util/bloom_filter.rs  fn write: .write_u64
   (25, 124, 1),  -- util/bloom_filter.rs  fn write: .write_u32
   (26, 48, 0),  -- util/hash256.rs  fn write: .write_all
-  (27, 66, 0),  -- util/serdes.rs  fn write: .write_all
-  (27, 79, 0),  -- util/serdes.rs  fn write: .write_all
-  (27, 35, 4),  -- util/serdes.rs  fn write_bytes: .write
-  (28, 23, 1),  -- util/var_int.rs  fn write: .write_u8
-  (28, 25, 1),  -- util/var_int.rs  fn write: .write_u8
-  (28, 26, 1),  -- util/var_int.rs  fn write: .write_u16
-  (28, 28, 1),  -- util/var_int.rs  fn write: .write_u8
-  (28, 29, 1),  -- util/var_int.rs  fn write: .write_u32
-  (28, 31, 1),  -- util/var_int.rs  fn write: .write_u8
-  (28, 32, 1),  -- util/var_int.rs  fn write: .write_u64
+  (27, 49, 0),  -- util/serdes.rs  fn write: .write_all
+  (27, 62, 0),  -- util/serdes.rs  fn write: .write_all
+  (28, 24, 0),  -- util/var_int.rs  fn write: .write_all
+  (28, 26, 0),  -- util/var_int.rs  fn write: .write_all
+  (28, 27, 0),  -- util/var_int.rs  fn write: .write_all
+  (28, 29, 0),  -- util/var_int.rs  fn write: .write_all
+  (28, 30, 0),  -- util/var_int.rs  fn write: .write_all
+  (28, 32, 0),  -- util/var_int.rs  fn write: .write_all
+  (28, 33, 0),  -- util/var_int.rs  fn write: .write_all
   (29, 409, 0)  -- wallet/extended_key.rs  fn write: .write_all
 ]
 
